@@ -26,11 +26,13 @@ import (
 	"syscall"
 	"time"
 
+	"github.com/go-chi/chi"
 	"go.amzn.com/lambda/core/statejson"
 	"go.amzn.com/lambda/interop"
 	"go.amzn.com/lambda/metering"
 	"go.amzn.com/lambda/rapidcore"
 	"go.amzn.com/lambda/rapidcore/env"
+	"go.amzn.com/lambda/rapidcore/standalone"
 	supvmodel "go.amzn.com/lambda/supervisor/model"
 	"go.amzn.com/lambda/telemetry"
 	"go.amzn.com/lambda/vhook"
@@ -61,6 +63,8 @@ type host struct {
 	ridMu        sync.Mutex
 	ridHist      []string
 	identsGlobal map[string]string
+	direct       *httptest.Server // the invoker-side test front (reserve / directInvoke / waitUntilRelease), as lambda/rapidcore/standalone mounts it
+	dTok         map[string]string
 	lastRtEnv    map[string]string // environment of the most recently launched runtime (driver-side credential fetches)
 	tmpRoot      string
 	hookMu       sync.Mutex
@@ -467,6 +471,10 @@ func (a *actor) do(st *Step, idx int, call, method, path string, hdr map[string]
 			select {
 			case <-a.h.latch(st.SlowBody):
 			case <-a.ctx.Done():
+				// killed in the middle of the upload: the rest is never sent (sending it raced with the teardown of the
+				// connection and sometimes won: a "killed" process completing its body)
+				pw.CloseWithError(a.ctx.Err())
+				return
 			case <-time.After(8 * time.Second):
 			}
 			pw.Write(body[len(body)/2:])
@@ -1224,6 +1232,68 @@ func (h *host) driverOp(a *actor, st *Step, idx int) bool {
 			ev.Err = err.Error()
 		}
 		h.record(ev)
+	case "d.reserve", "d.release":
+		path := map[string]string{"d.reserve": "/test/reserve", "d.release": "/test/waitUntilRelease"}[st.Op]
+		t0 := time.Now()
+		h.record(Event{Actor: "driver", Kind: "issue", Call: st.Op, Tag: st.Tag, Step: idx})
+		resp, err := http.Post(h.direct.URL+path, "application/json", nil)
+		ev := Event{Actor: "driver", Kind: "return", Call: st.Op, Tag: st.Tag, Step: idx}
+		if err != nil {
+			ev.Err = err.Error()
+		} else {
+			io.Copy(io.Discard, resp.Body)
+			resp.Body.Close()
+			ev.Status = resp.StatusCode
+			if st.Op == "d.reserve" && resp.StatusCode == 200 {
+				h.ridMu.Lock()
+				h.dTok = map[string]string{"Reservation-Token": resp.Header.Get("Reservation-Token"), "Invoke-Id": resp.Header.Get("Invoke-Id"), "Invoked-Function-Version": resp.Header.Get("Invoked-Function-Version")}
+				h.ridMu.Unlock()
+				ev.ReqID = resp.Header.Get("Invoke-Id")
+			}
+		}
+		ev.DurMs = float64(time.Since(t0).Microseconds()) / 1000
+		h.record(ev)
+	case "d.invoke":
+		var body []byte
+		if st.Payload != nil {
+			body = st.Payload.Bytes()
+		}
+		h.ridMu.Lock()
+		tok := h.dTok
+		h.ridMu.Unlock()
+		req, _ := http.NewRequest("POST", h.direct.URL+"/test/directInvoke/"+tok["Reservation-Token"], bytes.NewReader(body))
+		for k, v := range tok {
+			req.Header.Set(k, v)
+		}
+		for k, v := range st.Headers {
+			req.Header.Set(k, v)
+		}
+		t0 := time.Now()
+		h.record(Event{Actor: "driver", Kind: "issue", Call: "d.invoke", Tag: st.Tag, Step: idx, ReqID: tok["Invoke-Id"], Headers: flatHdr(req.Header)})
+		cl := &http.Client{Transport: &http.Transport{DisableKeepAlives: true, DisableCompression: true}}
+		resp, err := cl.Do(req)
+		ev := Event{Actor: "driver", Kind: "return", Call: "d.invoke", Tag: st.Tag, Step: idx, ReqID: tok["Invoke-Id"]}
+		if err != nil {
+			ev.Err = err.Error()
+		} else {
+			b, rerr := io.ReadAll(resp.Body)
+			resp.Body.Close()
+			ev.Status = resp.StatusCode
+			bs := kit.Summarise(b)
+			ev.Body = &bs
+			if len(b) <= 4096 {
+				ev.Text = string(b)
+			}
+			if rerr != nil {
+				ev.Err = rerr.Error()
+			}
+			ev.Headers = flatHdr(resp.Header)
+			for k, v := range resp.Trailer {
+				ev.Headers["Trailer:"+k] = strings.Join(v, "\x1f")
+			}
+		}
+		ev.DurMs = float64(time.Since(t0).Microseconds()) / 1000
+		h.record(ev)
 	case "shutdown":
 		ms := int64(st.Ms)
 		if ms == 0 {
@@ -1489,6 +1559,11 @@ func hostMain() {
 		InvokeHandler(w, r, sb.LambdaInvokeAPI(), bs)
 	})
 	h.front = httptest.NewServer(mux)
+	dmux := chi.NewRouter() // the direct-invoke handler reads the reservation token with chi.URLParam
+	dmux.Post("/test/reserve", func(w http.ResponseWriter, r *http.Request) { standalone.ReserveHandler(w, r, h.server) })
+	dmux.Post("/test/directInvoke/{reservationtoken}", func(w http.ResponseWriter, r *http.Request) { standalone.DirectInvokeHandler(w, r, h.server) })
+	dmux.Post("/test/waitUntilRelease", func(w http.ResponseWriter, r *http.Request) { standalone.WaitUntilReleaseHandler(w, r, h.server) })
+	h.direct = httptest.NewServer(dmux)
 
 	var wmu sync.Mutex
 	final := false
